@@ -22,6 +22,15 @@ def galaxy(eps, pa, law, cx, cy, n=91, shape=None):
     return 1000.0 * np.exp(-3.0 * ((r / 12.0) ** 0.5))          # Sersic n=2
 
 
+def galaxy_scaled(eps, pa, law, cx, cy, shape, sc):
+    """the same radial laws stretched by sc"""
+    y, x = np.mgrid[:shape[0], :shape[1]]
+    xr = (x - cx) * math.cos(pa) + (y - cy) * math.sin(pa)
+    yr = -(x - cx) * math.sin(pa) + (y - cy) * math.cos(pa)
+    r = np.sqrt(xr ** 2 + (yr / (1.0 - eps)) ** 2)
+    return profile_at(law, r / sc)
+
+
 def profile_at(law, r):
     if law == 'gauss':
         return 1000.0 * np.exp(-0.5 * (r / 14.0) ** 2)
@@ -42,7 +51,15 @@ def rec_fit(args):
         shape = (71, 151); cx += 70.0; cy -= 10.0
     elif c.get('frame') == 'tall':
         shape = (151, 71); cy += 70.0; cx -= 10.0
-    img = galaxy(eps, pa, c['law'], cx, cy, shape=shape)
+    elif c.get('frame') == 'nearleft':    # the outer isophotes cross the left / bottom border (fewer than 30 % of their points outside)
+        cx -= 29.0
+    elif c.get('frame') == 'nearbottom':
+        cy -= 29.0
+    big = c.get('frame') == 'large'       # a large frame fitted out to sma 75 (model images of large ellipses)
+    if big:
+        shape = (201, 201); cx += 55.0; cy += 55.0
+    sc = 2.5 if big else 1.0              # scale of the galaxy and of the sma range
+    img = galaxy(eps, pa, c['law'], cx, cy, shape=shape) if not big else galaxy_scaled(eps, pa, c['law'], cx, cy, shape, sc)
     img0 = img.copy()
     fixc, fixp, fixe = c['fix'] == 'center', c['fix'] == 'pa', c['fix'] == 'eps'
     x0i, y0i = (cx, cy) if fixc else (cx + 0.6, cy - 0.5)
@@ -52,12 +69,15 @@ def rec_fit(args):
         pai = pa + math.pi / 2 + 0.1
     linear = c['mode'] == 'linear_growth'
     step = 2.0 if linear else 0.15
-    minsma, maxsma = 4.0, 26.0
+    minsma, maxsma = 4.0 * sc, 26.0 * sc
+    if big and not linear:
+        step = 0.2
     rec = {'id': idx, 'kind': 'fit', 'raised': False, 'demand_fit': c['eps'] <= 50, 'fix_center': fixc, 'fix_pa': fixp, 'fix_eps': fixe, 'params': c}
     try:
-        g = EllipseGeometry(x0i, y0i, 10.0, epsi, pai)
+        g = EllipseGeometry(x0i, y0i, 10.0 * sc, epsi, pai)
         el = Ellipse(img, g)
-        iso = el.fit_image(sma0=10.0, minsma=minsma, maxsma=maxsma, step=step, linear=linear, integrmode='nearest_neighbor' if c['mode'] == 'nearest' else 'bilinear',
+        iso = el.fit_image(sma0=10.0 * sc, minsma=minsma, maxsma=maxsma, step=step, linear=linear,
+                           integrmode='nearest_neighbor' if c['mode'] == 'nearest' else (c['mode'] if c['mode'] in ('mean', 'median') else 'bilinear'),
                            fix_center=fixc, fix_pa=fixp, fix_eps=fixe, maxrit=(13.0 if c['mode'] == 'maxrit' else None))
         n = len(iso)
         fk = lambda v, s: int(round(float(v) * s)) if np.isfinite(v) else 0  # noqa
@@ -71,22 +91,26 @@ def rec_fit(args):
         rec['x0_err'] = [min(fk(i.x0_err, S), 10**6) for i in iso]; rec['y0_err'] = [min(fk(i.y0_err, S), 10**6) for i in iso]
         rec['eps_err'] = [min(fk(i.ellip_err, A), 10**6) for i in iso]; rec['pa_err'] = [min(fk(i.pa_err, A), 10**6) for i in iso]
         rec['tx0'], rec['ty0'], rec['teps'], rec['tpa'] = fk(cx, S), fk(cy, S), fk(eps, A), fk(pa % math.pi, A)
-        rec['intens_rel'] = [fk(i.intens / profile_at(c['law'], i.sma), A) if i.sma > 0 else A for i in iso]
+        rec['intens_rel'] = [fk(i.intens / profile_at(c['law'], i.sma / sc), A) if i.sma > 0 else A for i in iso]
         # well sampled: converged iterative fit, sma between 6 and 22 px, and the true geometry used for intensity only when not fixed elsewhere
         # (with bilinear sampling and a position angle away from 0 every such isophote is demanded to be right whatever its stop code:
         # on a noise-free ellipse the fit has no excuse; at PA = 0 - see the known finding - and for the coarser modes only converged ones)
-        strict = c['mode'] in ('bilinear', 'linear_growth') and c['pa'] != 0
-        rec['well'] = [bool((i.stop_code == 0 or strict) and 6.0 <= i.sma <= (12.0 if c['mode'] == 'maxrit' else 22.0) and i.valid and c['fix'] == 'none' and c['eps'] <= 50) for i in iso]
+        strict = c['mode'] in ('bilinear', 'linear_growth', 'mean', 'median') and c['pa'] != 0
+        rec['well'] = [bool((i.stop_code == 0 or strict) and 6.0 * sc <= i.sma <= (12.0 if c['mode'] == 'maxrit' else 22.0) * sc and i.valid and c['fix'] == 'none' and c['eps'] <= 50) for i in iso]
         # nearest-neighbour sampling reads pixel values up to half a pixel off the ellipse: 5 % on steep profiles (2 % for bilinear)
         rec['intens_tol'] = 820 if c['mode'] == 'nearest' else 330
-        rec['stops'] = [int(i.stop_code) for i in iso if 6.0 <= i.sma <= 22.0]
+        rec['stops'] = [int(i.stop_code) for i in iso if 6.0 * sc <= i.sma <= 22.0 * sc]
         rec['model_checked'] = False; rec['model_maxrel'] = 0; rec['model_tol'] = 500
         if c['fix'] == 'none' and (idx % 3 == 0 or c.get('frame') != 'square') and n > 5 and c['mode'] != 'maxrit' and c['eps'] <= 50:
             model = build_ellipse_model(img.shape, iso)
             y, x = np.mgrid[:img.shape[0], :img.shape[1]]
             xr = (x - cx) * math.cos(pa) + (y - cy) * math.sin(pa); yr = -(x - cx) * math.sin(pa) + (y - cy) * math.cos(pa)
             r = np.sqrt(xr ** 2 + (yr / (1.0 - eps)) ** 2)
-            region = (r >= 7.0) & (r <= 20.0)
+            region = (r >= 7.0 * sc) & (r <= 20.0 * sc) if not big else (r >= 12.0) & (r <= 60.0)
+            # the outermost pixel ring of the frame only receives one-sided contributions of the bilinear painting (a few per cent on steep
+            # profiles): compared from the second ring on
+            inner = np.zeros(img.shape, dtype=bool); inner[1:-1, 1:-1] = True
+            region &= inner
             rec['model_checked'] = True
             rec['model_maxrel'] = int(round(float(np.max(np.abs(model[region] - img[region]) / img[region])) * A))
             rec['model_tol'] = 500 if c['mode'] == 'bilinear' else 900
@@ -121,8 +145,8 @@ def rec_polar(seed):
 
 def run(ctx):
     q = ctx.quick
-    ctx.rule = ('TLC-enumerated lattice eps {0.05,0.1,0.2,0.5,0.8} x 8 position angles x {Gaussian, exponential, Sersic} x fix flags x integration / growth '
-                'modes x 2 centres x {square, wide, tall} frames x first guess {near, perpendicular PA (round galaxies)}, a seeded stratified sample of which is fitted with fit_image from a perturbed start; non-trivial = eps >= 0.2 or a fix flag set')
+    ctx.rule = ('TLC-enumerated lattice eps {0.05,0.1,0.2,0.5,0.8} x 8 position angles x {Gaussian, exponential, Sersic} x fix flags x integration (bilinear, nearest, mean, median) / growth '
+                'modes x 2 centres x {square, wide, tall, near the left / bottom border, large (sma to 65)} frames x first guess {near, perpendicular PA (round galaxies)}, a seeded stratified sample of which is fitted with fit_image from a perturbed start; non-trivial = eps >= 0.2 or a fix flag set')
     ctx.mc('IsoGrowth', core.make_cfg(ctx, 'MC_IsoGrowth.cfg', MaxLen=(7 if q else 9)), timeout=1800)
     ctx.mc('IsoGrowth', 'MC_IsoGrowth_lin.cfg', timeout=600)
     g = ctx.tlc('IsoParams', 'GEN_IsoParams.cfg', part='GEN:IsoParams', workers=1)
@@ -131,9 +155,11 @@ def run(ctx):
     rng.shuffle(lat)
     # stratified: a quarter of the sample starts with the position angle perpendicular to the truth
     perp = [c for c in lat if c.get('start') == 'perp']
-    near = [c for c in lat if c.get('start') != 'perp']
+    edge = [c for c in lat if c.get('start') != 'perp' and c['frame'] in ('nearleft', 'nearbottom')]
+    large = [c for c in lat if c.get('start') != 'perp' and c['frame'] == 'large']
+    near = [c for c in lat if c.get('start') != 'perp' and c['frame'] not in ('nearleft', 'nearbottom', 'large')]
     nq = 96 if q else 1200
-    lat = near[: nq - nq // 4] + perp[: nq // 4]
+    lat = near[: nq - nq // 4 - nq // 8 - nq // 12] + perp[: nq // 4] + edge[: nq // 8] + large[: nq // 12]
     recs = core.pmap(rec_fit, list(enumerate(lat)), chunksize=1, on_raise='drop')
     recs += [rec_polar(ctx.seed * 100 + k) for k in range(40 if q else 400)]
     ver = core.validate_batch(ctx, 'Trace_Iso', recs, 'Trace:Iso')
@@ -155,7 +181,7 @@ def run(ctx):
         bad.append(r2)
     vb = core.validate_batch(ctx, 'Trace_Iso', bad, 'SelfTest:Iso', shards=1)
     ctx.selftest('two isophotes swapped (list not sorted)', all(not v['ok'] for v in vb.values()))
-    ctx.assumptions += ['recovery tolerances: 3 sigma (reported) + 0.05 px / 0.02 eps / 0.03 rad, intensity 2 % (5 % with nearest-neighbour sampling), model 3 % inside 7 <= r <= 20 px',
+    ctx.assumptions += ['recovery tolerances: 3 sigma (reported) + 0.05 px / 0.02 eps / 0.03 rad, intensity 2 % (5 % with nearest-neighbour sampling), model 3 % inside 7 <= r <= 20 px (outermost pixel ring of the frame excluded)',
                         'behaviour on noisy or non-elliptical images is not decided']
 
 
